@@ -710,7 +710,7 @@ func c12PreValidate(c *core.Ctx, k spec.Kind) {
 	witness := map[spec.Kind]any{spec.String: "pre-ok", spec.Int: 41, spec.Float64: 4.5, spec.Bool: true}[k]
 	_ = zero
 	for _, fail := range []bool{false, true} {
-		for _, place := range []int{0, 1} {
+		for _, place := range []int{0, 1, 2, 3, 4} {
 			inner := &spec.Node{Kind: k, Tests: []spec.Test{{Op: spec.TCustom, PredName: "rec", Pred: func(any) bool { return true }}}}
 			failErr := errors.New("preprocess refuses in validate")
 			var gotArg any
@@ -724,10 +724,23 @@ func c12PreValidate(c *core.Ctx, k spec.Kind) {
 			root := pre
 			var val any = start
 			path := ""
-			if place == 1 {
+			switch place {
+			case 1:
 				root = structOf("p", pre)
 				val = map[string]any{"P": start}
 				path = "p"
+			case 2: // item of a slice
+				root = sliceOf(pre)
+				val = []any{start}
+				path = "[0]"
+			case 3: // directly below a pointer, as a struct field
+				root = structOf("p", ptrOf(pre))
+				val = map[string]any{"P": obs.PtrV{V: start}}
+				path = "p"
+			case 4: // directly below a pointer, as the item of a slice
+				root = sliceOf(ptrOf(pre))
+				val = []any{obs.PtrV{V: start}}
+				path = "[0]"
 			}
 			root.Number()
 			rec := &cbRecorder{keys: c12KeyUniverse}
@@ -766,8 +779,15 @@ func c12PreValidate(c *core.Ctx, k spec.Kind) {
 				}
 			} else {
 				var got any = out.Dest
-				if place == 1 {
+				switch place {
+				case 1:
 					got = out.Dest.(map[string]any)["P"]
+				case 2:
+					got = out.Dest.([]any)[0]
+				case 3:
+					got = out.Dest.(map[string]any)["P"].(obs.PtrV).V
+				case 4:
+					got = out.Dest.([]any)[0].(obs.PtrV).V
 				}
 				if len(out.Issues) != 0 || innerTests != 1 || !obs.Equal(got, witness) {
 					c.Violation("preprocess-success-in-validate", det(map[string]any{"value_after": obs.Render(out.Dest), "wrapped_schema_test_calls": innerTests}))
